@@ -1,6 +1,240 @@
 import PdeVerif.Json
+import PdeVerif.Model.Expr
+/-
+Driver of the expression model (C11; the AST reader/writer is shared with C10).
+Evaluates `PdeVerif.Ex.exprFunction` / `eval` / `diff` - the definitions the theorems of
+`Props/C11.lean` are about - at `Rat` (exact, rational fragment) or `Float` (libm table).
+-/
 namespace PdeVerif.Drv.C11
-open Lean PdeVerif
+open Lean PdeVerif PdeVerif.Ex
 
-def handlers : List (String × Handler) := []
+/-! ### AST <-> JSON -/
+
+def cmpOfString (s : String) : Except String Cmp :=
+  match s with
+  | "lt" => pure .lt | "le" => pure .le | "gt" => pure .gt | "ge" => pure .ge
+  | _ => throw s!"unknown comparison {s}"
+
+def cmpToString : Cmp → String
+  | .lt => "lt" | .le => "le" | .gt => "gt" | .ge => "ge"
+
+partial def exprOfJson (j : Json) : Except String Expr := do
+  let k ← fldS j "k"
+  match k with
+  | "num" => pure (.num (← fldQ j "v"))
+  | "var" => pure (.var (← fldS j "n"))
+  | "idx" => pure (.idx (← fldS j "n") (← fldN j "i"))
+  | "named" => pure (.named (← fldS j "n"))
+  | "neg" => pure (.neg (← exprOfJson (← fld j "a")))
+  | "add" => pure (.add (← exprOfJson (← fld j "a")) (← exprOfJson (← fld j "b")))
+  | "sub" => pure (.sub (← exprOfJson (← fld j "a")) (← exprOfJson (← fld j "b")))
+  | "mul" => pure (.mul (← exprOfJson (← fld j "a")) (← exprOfJson (← fld j "b")))
+  | "div" => pure (.div (← exprOfJson (← fld j "a")) (← exprOfJson (← fld j "b")))
+  | "powi" => pure (.powI (← exprOfJson (← fld j "a")) (← fldI j "n"))
+  | "call1" => pure (.call1 (← fldS j "f") (← exprOfJson (← fld j "a")))
+  | "call2" => pure (.call2 (← fldS j "f") (← exprOfJson (← fld j "a")) (← exprOfJson (← fld j "b")))
+  | "heav1" => pure (.heav1 (← exprOfJson (← fld j "a")))
+  | "heav2" => pure (.heav2 (← exprOfJson (← fld j "a")) (← exprOfJson (← fld j "h")))
+  | "cmp" => pure (.cmp (← cmpOfString (← fldS j "op")) (← exprOfJson (← fld j "a")) (← exprOfJson (← fld j "b")))
+  | _ => throw s!"unknown node kind {k}"
+
+def node (k : String) (fs : List (String × Json)) : Json := Json.mkObj (("k", Json.str k) :: fs)
+
+def exprToJson : Expr → Json
+  | .num q => node "num" [("v", jQ q)]
+  | .var x => node "var" [("n", Json.str x)]
+  | .idx x i => node "idx" [("n", Json.str x), ("i", toJson i)]
+  | .named c => node "named" [("n", Json.str c)]
+  | .neg a => node "neg" [("a", exprToJson a)]
+  | .add a b => node "add" [("a", exprToJson a), ("b", exprToJson b)]
+  | .sub a b => node "sub" [("a", exprToJson a), ("b", exprToJson b)]
+  | .mul a b => node "mul" [("a", exprToJson a), ("b", exprToJson b)]
+  | .div a b => node "div" [("a", exprToJson a), ("b", exprToJson b)]
+  | .powI a n => node "powi" [("a", exprToJson a), ("n", toJson n)]
+  | .call1 f a => node "call1" [("f", Json.str f), ("a", exprToJson a)]
+  | .call2 f a b => node "call2" [("f", Json.str f), ("a", exprToJson a), ("b", exprToJson b)]
+  | .heav1 a => node "heav1" [("a", exprToJson a)]
+  | .heav2 a h => node "heav2" [("a", exprToJson a), ("h", exprToJson h)]
+  | .cmp op a b => node "cmp" [("op", Json.str (cmpToString op)), ("a", exprToJson a), ("b", exprToJson b)]
+
+/-! ### function tables -/
+
+def floatPi : Float := 3.141592653589793
+
+/-- libm table (Python's `math`/numpy use the same C library functions) -/
+def floatTab : FunTab Float where
+  heav := heaviside
+  cmp := cmpVal
+  f0 := fun c => if c = "pi" then floatPi else if c = "E" then Float.exp 1.0 else 0.0
+  f1 := fun f x =>
+    if f = "sin" then Float.sin x else if f = "cos" then Float.cos x
+    else if f = "tan" then Float.tan x else if f = "exp" then Float.exp x
+    else if f = "log" then Float.log x else if f = "sqrt" then Float.sqrt x
+    else if f = "tanh" then Float.tanh x else if f = "sinh" then Float.sinh x
+    else if f = "cosh" then Float.cosh x else if f = "atan" then Float.atan x
+    else if f = "asin" then Float.asin x else if f = "acos" then Float.acos x
+    else if f = "asinh" then Float.asinh x else if f = "atanh" then Float.atanh x
+    else if f = "floor" then Float.floor x else if f = "ceiling" then Float.ceil x
+    else if algFun1 f then (algTab : FunTab Float).f1 f x
+    else 0.0 / 0.0
+  f2 := fun f x y =>
+    if f = "pow" then Float.pow x y
+    else if f = "hypot" then Float.sqrt (x * x + y * y)
+    else if f = "atan2" then Float.atan2 x y
+    else if algFun2 f then (algTab : FunTab Float).f2 f x y
+    else 0.0 / 0.0
+
+def floatFun1 : List String :=
+  ["sin", "cos", "tan", "exp", "log", "sqrt", "tanh", "sinh", "cosh", "atan", "asin", "acos",
+   "asinh", "atanh", "floor", "ceiling", "abs", "Abs", "sign"]
+def floatFun2 : List String := ["pow", "hypot", "atan2", "Max", "Min"]
+
+/-- every function name of the expression is interpreted (by the table or a user definition) -/
+def knownFuns (u1 u2 : List String) : Expr → Bool
+  | .num _ | .var _ | .idx _ _ => true
+  | .named c => c = "pi" || c = "E"
+  | .neg a | .powI a _ | .heav1 a => knownFuns u1 u2 a
+  | .add a b | .sub a b | .mul a b | .div a b | .heav2 a b | .cmp _ a b =>
+    knownFuns u1 u2 a && knownFuns u1 u2 b
+  | .call1 f a => (floatFun1.contains f || u1.contains f) && knownFuns u1 u2 a
+  | .call2 f a b => (floatFun2.contains f || u2.contains f) && knownFuns u1 u2 a && knownFuns u1 u2 b
+
+/-! ### request decoding -/
+
+def udefOfJson (j : Json) : Except String UDef := do
+  let name ← fldS j "name"
+  let params ← getL getS (← fld j "params")
+  let body ← exprOfJson (← fld j "body")
+  pure { name, params, body }
+
+def valOfJson {K : Type} (num : Json → Except String K) (j : Json) : Except String (Val K) :=
+  match j with
+  | .arr a => do pure (Val.vec (← a.toList.mapM num))
+  | _ => do pure (Val.sc (← num j))
+
+def pairOfJson {α : Type} (f : Json → Except String α) (j : Json) : Except String (String × α) := do
+  match j with
+  | .arr #[a, b] => pure (← getS a, ← f b)
+  | _ => throw s!"expected a pair, got {j.compress}"
+
+structure Req (K : Type) where
+  rank : Nat
+  scalar : Expr
+  vec : List Expr
+  mat : List (List Expr)
+  sig : List (List String)
+  consts : List (String × Val K)
+  /-- constants that are arrays over the points (one value per point) -/
+  pconsts : List (String × List (Val K))
+  repl : List (String × String)
+  udefs : List UDef
+  points : List (List (Val K))
+  dvars : List String
+  single : Bool
+
+def reqOfJson {K : Type} (num : Json → Except String K) (j : Json) : Except String (Req K) := do
+  let rank ← fldN j "rank"
+  let ej ← fld j "expr"
+  let scalar ← if rank == 0 then exprOfJson ej else pure (.num 0)
+  let vec ← if rank == 1 then getL exprOfJson ej else pure []
+  let mat ← if rank == 2 then getL (getL exprOfJson) ej else pure []
+  let sig ← getL (getL getS) (← fld j "sig")
+  let consts ← getL (pairOfJson (valOfJson num)) (← fld j "consts")
+  let pconsts ← match fldOpt j "pconsts" with
+    | some v => getL (pairOfJson (getL (valOfJson num))) v
+    | none => pure []
+  let repl ← getL (pairOfJson getS) (← fld j "repl")
+  let udefs ← getL udefOfJson (← fld j "ufuncs")
+  let points ← getL (getL (valOfJson num)) (← fld j "points")
+  let dvars ← match fldOpt j "diff" with
+    | some v => getL getS v
+    | none => pure []
+  let single ← match fldOpt j "single" with
+    | some v => getB v
+    | none => pure false
+  pure { rank, scalar, vec, mat, sig, consts, pconsts, repl, udefs, points, dvars, single }
+
+section
+variable {K : Type} [Add K] [Sub K] [Mul K] [Div K] [Neg K] [NatCast K] [IntCast K]
+
+/-- value of one scalar expression at one point through the model of the generated function;
+`ok` decides whether the value is reported (definedness at exact number types) -/
+def callScalar (T : FunTab K) (r : Req K) (ok : Env K → Expr → Bool) (num : K → Json) (e : Expr)
+    (args : List (Val K)) : Json :=
+  let args' : List (Val K) := if r.single then
+      match args with
+      | [Val.vec l] => l.map Val.sc
+      | _ => args
+    else args
+  match exprFunction T r.sig r.consts r.repl e args' with
+  | none => Json.str "rejected"
+  | some v =>
+    if ok (callEnv r.sig r.consts args') (prepare r.sig r.repl e) then num v else Json.str "undef"
+
+/-- derivative of the *prepared* expression (the sympy expression after alias renaming is what
+`differentiate` differentiates), evaluated in the environment of the call -/
+def callDeriv (T : FunTab K) (r : Req K) (ok : Env K → Expr → Bool) (num : K → Json) (x : String)
+    (e : Expr) (args : List (Val K)) : Json :=
+  let d := diff x (prepare r.sig r.repl e)
+  if checkSignature r.sig (r.consts.map Prod.fst) r.repl e && args.length == r.sig.length then
+    let env := callEnv r.sig r.consts args
+    if ok env d && ok env (prepare r.sig r.repl e) then num (eval T env d) else Json.str "undef"
+  else Json.str "rejected"
+
+/-- apply `f` to every component, keeping the array structure -/
+def shapeMap (r : Req K) (f : Expr → Json) : Json :=
+  match r.rank with
+  | 0 => f r.scalar
+  | 1 => Json.arr (r.vec.map f).toArray
+  | _ => Json.arr (r.mat.map (fun row => Json.arr (row.map f).toArray)).toArray
+
+def answer (T : FunTab K) (r : Req K) (ok : Env K → Expr → Bool) (num : K → Json) : Json :=
+  let T' := withUser T r.udefs
+  let atPt (i : Nat) : Req K :=
+    { r with consts := r.consts ++ r.pconsts.filterMap (fun p => (p.2[i]?).map (fun v => (p.1, v))) }
+  let pts := r.points.zipIdx
+  let vals := pts.map (fun (args, i) =>
+    shapeMap r (fun e => callScalar T' (atPt i) ok num e args))
+  let dvals := r.dvars.map (fun x =>
+    Json.arr (pts.map (fun (args, i) =>
+      shapeMap r (fun e => callDeriv T' (atPt i) ok num x e args))).toArray)
+  let dexprs := r.dvars.map (fun x =>
+    shapeMap r (fun e => exprToJson (diff x (prepare r.sig r.repl e))))
+  Json.mkObj [("vals", Json.arr vals.toArray), ("dvals", Json.arr dvals.toArray),
+              ("dexprs", Json.arr dexprs.toArray)]
+
+end
+
+def mainExprs {K : Type} (r : Req K) : List Expr :=
+  match r.rank with
+  | 0 => [r.scalar]
+  | 1 => r.vec
+  | _ => r.mat.flatten
+
+/-- {"mode":"Q"|"F","rank":0|1|2,"expr":..,"sig":..,"consts":..,"repl":..,"ufuncs":..,
+"points":[[..]..],"diff":[..],"single":bool} -/
+def evalReq (j : Json) : Except String Json := do
+  let mode ← fldS j "mode"
+  if mode == "Q" then
+    let r ← reqOfJson getQ j
+    let u := (r.udefs.filter (fun d => rationalFragment [] d.body)).map (·.name)
+    if !(mainExprs r).all (rationalFragment u) then throw "not in the rational fragment"
+    let T : FunTab Rat := algTab
+    let dT := withUser T r.udefs
+    pure (answer T r (fun env e => defined dT env e) jQ)
+  else
+    let r ← reqOfJson getF j
+    let u1 := (r.udefs.filter (fun d => d.params.length == 1)).map (·.name)
+    let u2 := (r.udefs.filter (fun d => d.params.length == 2)).map (·.name)
+    if !(mainExprs r ++ r.udefs.map (·.body)).all (knownFuns u1 u2) then
+      throw "uninterpreted function or constant"
+    pure (answer floatTab r (fun _ _ => true) jF)
+
+/-- {"expr":..,"x":".."} -> AST of `diff x expr` -/
+def diffReq (j : Json) : Except String Json := do
+  let e ← exprOfJson (← fld j "expr")
+  let x ← fldS j "x"
+  pure (exprToJson (diff x e))
+
+def handlers : List (String × Handler) := [("c11.eval", evalReq), ("c11.diff", diffReq)]
 end PdeVerif.Drv.C11
